@@ -7,6 +7,7 @@ from __future__ import annotations
 import contextlib
 import io
 import os
+import pathlib
 import shutil
 import subprocess
 import sys
@@ -158,6 +159,56 @@ def case_tree(shape, wd):
         st, _, _ = cli(["a", "missing.7z", "extra.txt"], cwd=base)
         if st == 0:
             out.append(("append-missing", "a on a missing archive exits 0"))
+    # the spelling of the source argument: 'c'/'a' must store the names the library stores for the same argument
+    nest = os.path.join(base, "nest", "deeper")
+    os.makedirs(nest)
+    shutil.copytree(top, os.path.join(nest, "src"), symlinks=True)
+    for k, arg in enumerate(("./src", "src/", "nest/deeper/src", os.path.join(base, "nest", "deeper", "src"), "nest")):
+        ca, la = os.path.join(base, f"arg{k}-cli.7z"), os.path.join(base, f"arg{k}-lib.7z")
+        st, so, se = cli(["c", os.path.basename(ca), arg], cwd=base)
+        old = os.getcwd()
+        os.chdir(base)
+        try:
+            lib_err = None
+            try:
+                with py7zr.SevenZipFile(la, "w") as z:
+                    z.writeall(pathlib.Path(arg))
+            except Exception as ex:
+                lib_err = type(ex).__name__
+        finally:
+            os.chdir(old)
+        if lib_err is not None:
+            if st == 0:
+                out.append(("create-arg-status", f"c <{arg}> exits 0 although writeall({arg!r}) raises {lib_err}"))
+            continue
+        if st != 0:
+            out.append(("create-arg-status", f"c <{arg}> -> status {st} although writeall({arg!r}) succeeds: {se[-120:]}"))
+            continue
+        with py7zr.SevenZipFile(ca) as z1, py7zr.SevenZipFile(la) as z2:
+            n1, n2 = z1.getnames(), z2.getnames()
+        if n1 != n2:
+            out.append(("create-arg-names", f"c <{arg}> stores {n1[:4]} but writeall({arg!r}) stores {n2[:4]}"))
+        # the same through 'a' onto a copy of the first archive
+        aa, al = os.path.join(base, f"arg{k}-acli.7z"), os.path.join(base, f"arg{k}-alib.7z")
+        if os.path.exists(os.path.join(base, "noext.7z")):
+            shutil.copy(os.path.join(base, "noext.7z"), aa)
+            shutil.copy(os.path.join(base, "noext.7z"), al)
+            st, so, se = cli(["a", os.path.basename(aa), arg], cwd=base)
+            os.chdir(base)
+            try:
+                with py7zr.SevenZipFile(al, "a") as z:
+                    z.writeall(pathlib.Path(arg))
+            except Exception:
+                al = None
+            finally:
+                os.chdir(old)
+            if al is not None and st == 0:
+                with py7zr.SevenZipFile(aa) as z1, py7zr.SevenZipFile(al) as z2:
+                    n1, n2 = z1.getnames(), z2.getnames()
+                if n1 != n2:
+                    out.append(("append-arg-names", f"a <{arg}> yields {n1[-4:]} but appending writeall({arg!r}) yields {n2[-4:]}"))
+            elif (al is None) != (st != 0):
+                out.append(("append-arg-status", f"a <{arg}> -> status {st}, library append {'raises' if al is None else 'succeeds'}"))
     shutil.rmtree(base, ignore_errors=True)
     return out
 
@@ -264,7 +315,7 @@ def shard(task):
             if r is None:
                 continue
             sh.case(("tree", shape), sample={"tree": shape} if len(sh.samples) < 1 else None)
-            sh.count("cli_invocations", 14)
+            sh.count("cli_invocations", 24)
             for sym, msg in r:
                 sh.violation({"symptom": sym, "plane": "trees"}, f"tree {shape}: {msg}", {"kind": "tree", "shape": shape})
     elif kind == "volumes":
@@ -392,7 +443,7 @@ def main(tier="quick", seed=0, only=None):
         rule=(
             f"{len(shapes)} source trees: c (with and without .7z in the name) -> l (every library-listed name shown) -> x (plain, --verbose, without "
             "output directory) -> a extra file -> x (earlier members undisturbed) -> t, plus the error statuses of c on an existing archive and a on "
-            f"a missing one; -v SIZE for every SIZE in {SIZES} x every unit in {UNITS} (volumes sized as requested, concatenation extracts to the tree); "
+            f"a missing one, and c / a with the source spelled './src', 'src/', 'nest/deeper/src', as an absolute path and as an enclosing directory (member names must equal those the library's writeall stores for the same argument); -v SIZE for every SIZE in {SIZES} x every unit in {UNITS} (volumes sized as requested, concatenation extracts to the tree); "
             f"t and x on EVERY single-bit flip and EVERY truncation of {len(pick)} base archives (every password-free base of the tier: one per decoder family, raw and packed headers, several folders, reference layouts), judged against the library's own verdict on the "
             "same bytes (exit 0 <=> the library succeeds; exit 0 on x => the extracted files are the original members); encrypted / unsupported-"
             "method / damaged fixtures and non-archives. Statuses are taken in-process (return value / SystemExit / uncaught exception = 1); the "
